@@ -158,6 +158,36 @@ Theorem C11_single_words_unchanged :
 Proof. exact portion_flags_single. Qed.
 Print Assumptions C11_single_words_unchanged.
 
+(* ----------------------------------------------------------------------- a whole string: the rule is per tag *)
+
+(* the unit issues of a string are the concatenation, over its unit-class tags in visiting order, of the
+   per-tag issues (validate_units_string is the loop of _validate_individual_tags_in_hed_string: an accumulator
+   of issues and no other state) -- every schema, every switch *)
+Theorem C11_string_is_concat :
+  forall (f3 f4 : bool) (S : uschema) (tags : list (utag * str)),
+  validate_units_string f3 f4 S tags
+  = flat_map (fun te => validate_units f3 f4 S (fst te) (snd te)) tags.
+Proof. exact string_is_concat_lemma. Qed.
+Print Assumptions C11_string_is_concat.
+
+(* the verdict on a tag does not depend on the tags that stand before or after it in the string *)
+Theorem C11_string_tag_context_free :
+  forall (f3 f4 : bool) (S : uschema) (before : list (utag * str)) (T : utag) (ext : str)
+         (after : list (utag * str)),
+  validate_units_string f3 f4 S (before ++ (T, ext) :: after)
+  = validate_units_string f3 f4 S before ++ validate_units f3 f4 S T ext
+    ++ validate_units_string f3 f4 S after.
+Proof. exact string_tag_context_free_lemma. Qed.
+Print Assumptions C11_string_tag_context_free.
+
+(* re-ordering the tags of a string only re-orders its unit issues *)
+Theorem C11_string_order_irrelevant :
+  forall (f3 f4 : bool) (S : uschema) (tags tags' : list (utag * str)),
+  Permutation.Permutation tags tags' ->
+  Permutation.Permutation (validate_units_string f3 f4 S tags) (validate_units_string f3 f4 S tags').
+Proof. exact string_permutation_lemma. Qed.
+Print Assumptions C11_string_order_irrelevant.
+
 (* ======================================================================= kernel-evaluated data obligations *)
 
 (* every bundled schema's translated unit table satisfies the well-formedness predicate *)
